@@ -526,4 +526,403 @@ theorem closeMany_vinv (S : Schema) (hdet : DetS S) (hf : FillersOK S) (hleaf : 
     rw [show min g (fr.length - 1 - (n + 1)) = min (min g (fr.length - 2)) (fr.length - 1 - 1 - n) by omega]
     exact this
 
+/-! ### opening wrapper nodes, adding the taken nodes -/
+
+theorem openFrontierNode_vinv (S : Schema) (hlab : LabelsOK S) (D g : Nat) (pre : List FItem) (top : FItem)
+    (placed : List Node) (ty : TypeId) (q q' : Nat) (hq : top.st = some q)
+    (hm : (S.dfa top.ty).matchType q ty = some q') (hleaf : (S.nodeType ty).isLeaf = false)
+    (hg : g ≤ pre.length) (r : List FItem × List Node)
+    (h : openFrontierNode S (pre ++ [top]) placed ty none [] = .ok r)
+    (hv : VInv S D g (pre ++ [top]) placed) :
+    r.1 = pre ++ [⟨top.ty, some q'⟩, ⟨ty, some 0⟩] ∧ VInv S D g r.1 r.2 := by
+  unfold openFrontierNode at h
+  simp only [List.length_append, List.length_singleton, Nat.add_sub_cancel] at h
+  obtain ⟨top0, hgi, h⟩ := FM.bind_ok h
+  have ht0 : top0 = top := by
+    have := getItem_ok hgi
+    simpa using this.symm
+  subst ht0
+  obtain ⟨q0, hgs, h⟩ := FM.bind_ok h
+  have hq0 : q0 = q := by
+    have := getSt_ok hgs
+    rw [hq] at this
+    simpa using this.symm
+  subst hq0
+  obtain ⟨node, hnode, h⟩ := FM.bind_ok h
+  obtain ⟨p, hp, h⟩ := FM.bind_ok h
+  have := pure_ok h
+  subst this
+  have hn : ∃ a, node = .elem ty a [] [] := by
+    unfold Schema.createNodeO at hnode
+    split at hnode
+    · simp [throw, throwThe, MonadExceptOf.throw] at hnode
+    · split at hnode
+      · rename_i aa _
+        have := pure_ok hnode
+        subst this
+        refine ⟨aa, ?_⟩
+        unfold Schema.mkNodeO
+        simp only [hleaf, Bool.false_eq_true, if_false]
+      · simp [throw, throwThe, MonadExceptOf.throw] at hnode
+  obtain ⟨a, rfl⟩ := hn
+  have hfr : (pre ++ [top0]).set pre.length ⟨top0.ty, (S.dfa top0.ty).matchType q0 ty⟩ ++ [⟨ty, some 0⟩] =
+      pre ++ [⟨top0.ty, some q'⟩, ⟨ty, some 0⟩] := by
+    rw [hm]
+    simp
+  refine ⟨hfr, ?_⟩
+  simp only [hfr]
+  refine VInv_top S D g [.elem ty a [] []] top0 [⟨top0.ty, some q'⟩, ⟨ty, some 0⟩]
+    (by intro x hx; simp at hx; rw [← hx]) (by simp) pre placed p hg hp hv ?_
+  intro mk' x' F0 hF0
+  obtain ⟨h1, h2⟩ := hF0
+  rw [fappend_singleton_elem]
+  refine ⟨F0, ty, a, [], [], rfl, rfl, h1, ?_, canonicalMarks_nil_fit S, ?_⟩
+  · intro hmk
+    obtain ⟨a1, a2, qq, a3, a4⟩ := h2 hmk
+    refine ⟨a1, ?_, q', rfl, ?_⟩
+    · intro c hc
+      rcases List.mem_append.mp hc with hc | hc
+      · exact a2 c hc
+      · simp only [List.mem_singleton] at hc
+        subst hc
+        exact allowsMarks_nil _
+    · rw [hq] at a3
+      simp only [Option.some.injEq] at a3
+      subst a3
+      rw [types_append, Dfa.run_append, a4]
+      simp only [Schema.types, List.map_cons, List.map_nil, Schema.tyOf, Node.tyOr, Option.bind_some]
+      rw [Dfa.run_singleton]; exact hm
+  · exact ⟨by simp [leftOpenValid], fun _ => ⟨hlab top0.ty q0 (ty, q') (Dfa.mem_of_matchType hm),
+      by intro c hc; simp at hc, 0, rfl, rfl⟩⟩
+
+theorem openMany_vinv (S : Schema) (hlab : LabelsOK S) (D g : Nat) : ∀ (ws : List TypeId)
+    (pre : List FItem) (top : FItem) (placed : List Node) (q : Nat), top.st = some q →
+    ChainFrom S (S.dfa top.ty) q ws → g ≤ pre.length → ∀ (r : List FItem × List Node),
+    openMany S ws (pre ++ [top]) placed = .ok r → VInv S D g (pre ++ [top]) placed →
+    VInv S D g r.1 r.2
+  | [], pre, top, placed, q, _, _, _, r, h, hc => by
+    have := pure_ok h
+    subst this; exact hc
+  | w :: ws, pre, top, placed, q, hq, ⟨hc1, hc2, hc3⟩, hg, r, h, hc => by
+    unfold openMany at h
+    obtain ⟨x, hx, h⟩ := FM.bind_ok h
+    obtain ⟨q', hq'⟩ := Option.isSome_iff_exists.1 hc2
+    have hleaf : (S.nodeType w).isLeaf = false := by
+      simp only [Schema.wrappable, Bool.and_eq_true, Bool.not_eq_eq_eq_not, Bool.not_true] at hc1
+      exact hc1.1
+    obtain ⟨e1, e2⟩ := openFrontierNode_vinv S hlab D g pre top placed w q q' hq hq' hleaf hg x hx hc
+    have e1' : x.1 = (pre ++ [⟨top.ty, some q'⟩]) ++ [⟨w, some 0⟩] := by rw [e1]; simp
+    obtain ⟨x1, x2⟩ := x
+    simp only at h e1' e2
+    subst e1'
+    exact openMany_vinv S hlab D g ws (pre ++ [⟨top.ty, some q'⟩]) ⟨w, some 0⟩ x2 0 rfl hc3
+      (by simp; omega) r h e2
+
+/-- adding `from_array(Xraw)` at the top level and setting the match to the state after `Xraw` -/
+theorem addTaken_vinv (S : Schema) (hts : TextStableP S) (D g : Nat) (pre : List FItem) (top : FItem)
+    (placed p : List Node) (q q' : Nat) (Xraw : List Node) (hq : top.st = some q)
+    (hrun : (S.dfa top.ty).run q (S.types Xraw) = some q') (hXv : S.checkKids Xraw = true)
+    (hXm : MarksOK S top.ty Xraw) (hg : g ≤ pre.length)
+    (h : addToFragment placed pre.length (fromArray Xraw) = .ok p) (hv : VInv S D g (pre ++ [top]) placed) :
+    VInv S D g (pre ++ [⟨top.ty, some q'⟩]) p := by
+  refine VInv_top S D g (fromArray Xraw) top [⟨top.ty, some q'⟩]
+    (by intro x hx; simp at hx; rw [← hx]) (by simp) pre placed p hg h hv ?_
+  intro mk' x' F0 hF0
+  obtain ⟨h1, h2⟩ := hF0
+  refine ⟨leftOpenValid_fappend S x' F0 _ h1 (fromArray_checkKids S _ hXv), ?_⟩
+  intro hmk
+  obtain ⟨a1, a2, qq, a3, a4⟩ := h2 hmk
+  rw [hq] at a3
+  simp only [Option.some.injEq] at a3
+  subst a3
+  refine ⟨a1, MarksOK_fappend S _ F0 _ a2 (MarksOK_fromArray S _ _ hXm), q', rfl, ?_⟩
+  apply run_fappend_some hts
+  rw [Dfa.run_append, a4]
+  exact run_fromArray_some hts _ _ _ _ hrun
+
+theorem withMarks_marks (n : Node) (m : Marks) : (n.withMarks m).marks = m := by
+  cases n <;> rfl
+
+/-- the nodes the take loop adds from a closed slice: valid, with marks the frontier node's type allows -/
+theorem takeLoop_valid0 (S : Schema) (d : Dfa) (fty : TypeId) (oec : Int) (total : Nat) :
+    ∀ (rest : List Node) (taken q : Nat) (add : List Node) (tk : Nat × Nat × List Node),
+    takeLoop S d fty 0 oec total rest taken q add = .ok tk → (∀ n ∈ rest, S.checkNode n = true) →
+    S.checkKids add = true → MarksOK S fty add → S.checkKids tk.2.2 = true ∧ MarksOK S fty tk.2.2
+  | [], taken, q, add, tk, h, _, h1, h2 => by
+    have := pure_ok h
+    subst this
+    exact ⟨h1, h2⟩
+  | next :: rest', taken, q, add, tk, h, hr, h1, h2 => by
+    unfold takeLoop at h
+    split at h
+    · have := pure_ok h
+      subst this
+      exact ⟨h1, h2⟩
+    · rename_i q' hm
+      simp only at h
+      split at h
+      · obtain ⟨n, hn, h⟩ := FM.bind_ok h
+        have hn' : n = next.withMarks ((S.nodeType fty).allowedMarks next.marks) := by
+          simp only [ite_self] at hn
+          exact (pure_ok hn).symm
+        subst hn'
+        refine takeLoop_valid0 S d fty oec total rest' _ q' _ tk h (fun x hx => hr x (by simp [hx])) ?_ ?_
+        · rw [checkKids_append]
+          simp [h1, checkNode_withMarks_allowed S (S.nodeType fty) next (hr next (by simp))]
+        · intro c hc
+          rcases List.mem_append.mp hc with hc | hc
+          · exact h2 c hc
+          · simp only [List.mem_singleton] at hc
+            subst hc
+            rw [withMarks_marks]
+            exact allowsMarks_allowedMarks _ _
+      · exact takeLoop_valid0 S d fty oec total rest' _ q _ tk h (fun x hx => hr x (by simp [hx])) h1 h2
+
+/-! ### `place_nodes` on a closed slice of leaf nodes keeps the invariant (the proof of `placeNodes_ok`,
+    Proofs/FitInline.lean, with the validity bookkeeping next to it) -/
+
+theorem placeNodes_ok_vinv (S : Schema) (hdet : DetS S) (hf : FillersOK S) (hw : WrapOK S) (hlab : LabelsOK S)
+    (hleaf : PM.FromDom.LeafOk S) (hts : TextStableP S) (hcl : Closable S) (D g : Nat)
+    (st : FitState) (inv : FitLoopInv S D st) (hv : VInv S D g st.frontier st.placed)
+    (hu : ∀ n ∈ st.unplaced.content, S.checkNode n = true)
+    (f : Fittable) (hfit : findFittable S st = .ok (some f)) :
+    ∃ st', placeNodes S st f = .ok st' ∧ FitLoopInv S D st' ∧
+      VInv S D (min g f.frontierDepth) st'.frontier st'.placed ∧
+      (∀ n ∈ st'.unplaced.content, n ∈ st.unplaced.content) := by
+  obtain ⟨lvl, it, hsd, hlvl, hpar, hit, kind, _⟩ := findFittable_kind S st f hfit
+  have hsd0 : f.sliceDepth = 0 := by have := inv.os0; omega
+  rw [hsd0] at hlvl
+  have hlvl' : lvl = (none, st.unplaced.content) := by
+    rcases sliceLevel_ok hlvl with ⟨_, h⟩ | ⟨h, _⟩
+    · exact h
+    · omega
+  subst hlvl'
+  simp only at hpar kind
+  have hfragment : f.fragment st.unplaced = st.unplaced.content := by
+    unfold Fittable.fragment; rw [hpar]
+  have hfdlt : f.frontierDepth < st.frontier.length := by
+    rcases Nat.lt_or_ge f.frontierDepth st.frontier.length with h1 | h1
+    · exact h1
+    · rw [List.getElem?_eq_none h1] at hit; simp at hit
+  obtain ⟨q, hq⟩ := inv.frok it (List.mem_of_getElem? hit)
+  -- closing down to the fittable's depth
+  obtain ⟨c1, hc1, hc1f, hc1s⟩ := closeMany_ok S hdet hf (st.frontier.length - 1 - f.frontierDepth)
+    st.frontier st.placed inv.frok (by omega) inv.sp
+  have hc1sz := closeMany_size S _ _ _ c1 hc1
+  have hc1f' : c1.1 = st.frontier.take (f.frontierDepth + 1) := by
+    rw [hc1f]; congr 1; omega
+  have hc1len : c1.1.length = f.frontierDepth + 1 := by
+    rw [hc1f', List.length_take]; omega
+  have hc1ok : FrOK c1.1 := by rw [hc1f']; exact inv.frok.take _
+  have hc1it : c1.1[f.frontierDepth]? = some it := by
+    rw [hc1f', List.getElem?_take_of_lt (by omega)]; exact hit
+  have hc1last : c1.1.getLast? = some it := by
+    rw [List.getLast?_eq_getElem?, hc1len, Nat.add_sub_cancel]; exact hc1it
+  let pre := st.frontier.take f.frontierDepth
+  have hprelen : pre.length = f.frontierDepth := by
+    simp only [pre, List.length_take]; omega
+  have hc1f'' : c1.1 = pre ++ [it] := by
+    rw [hc1f']
+    exact take_succ_of_getElem? _ _ _ hit
+  have hv1 : VInv S D (min g f.frontierDepth) c1.1 c1.2 := by
+    have := closeMany_vinv S hdet hf hleaf hts hcl D _ g st.frontier st.placed (by omega) inv.frok inv.sp hv c1 hc1
+    rwa [show st.frontier.length - 1 - (st.frontier.length - 1 - f.frontierDepth) = f.frontierDepth by omega] at this
+  -- the wrappers (if any) are opened
+  have hchain : ChainFrom S (S.dfa it.ty) q (f.wrap.getD []) := by
+    cases kind with
+    | direct _ _ _ _ _ _ hwn => rw [hwn]; trivial
+    | inject _ _ _ _ _ _ _ hwn => rw [hwn]; trivial
+    | empty _ _ _ _ hwn => rw [hwn]; trivial
+    | wrap fst q' w hfst hq' hfw _ hwn =>
+      rw [hwn]
+      rw [hq] at hq'
+      simp only [Option.some.injEq] at hq'
+      subst hq'
+      exact findWrappingTypes_chain S _ _ _ w hfw
+  obtain ⟨c2, hc2, hc2ok, hc2len, hc2s, hc2sz, hc2pre, hc2top⟩ :=
+    openMany_ok S hw (f.wrap.getD []) c1.1 c1.2 it q hc1last hq hchain hc1ok hc1s
+  rw [hc1len] at hc2len hc2top
+  simp only [Nat.add_sub_cancel] at hc2top
+  have hv2 : VInv S D (min g f.frontierDepth) c2.1 c2.2 :=
+    openMany_vinv S hlab D _ (f.wrap.getD []) pre it c1.2 q hq hchain (by rw [hprelen]; omega) c2
+      (by rw [← hc1f'']; exact hc2) (by rw [← hc1f'']; exact hv1)
+  -- the frontier item the take loop starts from
+  have hitem : ∃ item q0, c2.1[f.frontierDepth]? = some item ∧ item.st = some q0 ∧ item.ty = it.ty ∧
+      (f.wrap.getD [] = [] → item = it ∧ q0 = q) ∧
+      (∀ w0 rest, f.wrap.getD [] = w0 :: rest → (S.dfa it.ty).matchType q w0 = some q0) := by
+    cases hws : f.wrap.getD [] with
+    | nil =>
+      rw [hws] at hc2
+      have := pure_ok hc2
+      subst this
+      exact ⟨it, q, hc1it, hq, rfl, fun _ => ⟨rfl, rfl⟩, fun _ _ h => by simp at h⟩
+    | cons w0 rest =>
+      have htop := hc2top w0 rest hws
+      rw [hws] at hchain
+      obtain ⟨q', hq'⟩ := Option.isSome_iff_exists.1 hchain.2.1
+      refine ⟨_, q', htop, by simp [hq'], rfl, fun h => by simp at h, ?_⟩
+      intro w0' rest' h
+      simp only [List.cons.injEq] at h
+      rw [← h.1]; exact hq'
+  obtain ⟨item, q0, hitem, hitq, hitty, hq0nil, hq0cons⟩ := hitem
+  have hfdlt2 : f.frontierDepth < c2.1.length := by rw [hc2len]; omega
+  -- the filling in front (pass 1) runs from the item's state
+  have hrun : ∃ q1, (S.dfa item.ty).run q0 (S.types (f.inject.getD [])) = some q1 := by
+    cases kind with
+    | direct _ _ _ _ _ hinj _ => rw [hinj]; exact ⟨q0, rfl⟩
+    | empty _ _ _ hinj _ => rw [hinj]; exact ⟨q0, rfl⟩
+    | wrap _ _ _ _ _ _ hinj _ => rw [hinj]; exact ⟨q0, rfl⟩
+    | inject fst q' inj hfst hq' hfill hinj hwn =>
+      rw [hinj, hitty]
+      have hq0 : q0 = q := (hq0nil (by rw [hwn]; rfl)).2
+      rw [hq] at hq'
+      simp only [Option.some.injEq] at hq'
+      subst hq'; subst hq0
+      have htys := fillBeforeNodes_types S _ _ _ _ inj (liftRaise_ok hfill)
+      obtain ⟨q1, hr, _⟩ := fillBeforeTypes_one S _ (hdet it.ty) q0 (S.tyOf fst) _ htys
+      exact ⟨q1, hr⟩
+  obtain ⟨q1, hq1⟩ := hrun
+  -- the take loop
+  obtain ⟨tk, htk⟩ := takeLoop_ok0 S (S.dfa item.ty) item.ty (f.oec0 st.unplaced) st.unplaced.content.length
+    st.unplaced.content 0 q1 (f.inject.getD [])
+  -- with wrappers opened nothing is taken at the frontier level itself
+  have hwrap_nothing : ∀ w0 rest, f.wrap.getD [] = w0 :: rest → tk.2.2 = [] ∧ tk.2.1 = q0 := by
+    intro w0 rest hws
+    cases kind with
+    | direct _ _ _ _ _ _ hwn => rw [hwn] at hws; simp at hws
+    | inject _ _ _ _ _ _ _ hwn => rw [hwn] at hws; simp at hws
+    | empty _ _ _ _ hwn => rw [hwn] at hws; simp at hws
+    | wrap fst q' w hfst hq' hfw hinj hwn =>
+      rw [hwn] at hws
+      simp only [Option.getD_some] at hws
+      subst hws
+      rw [hq] at hq'
+      simp only [Option.some.injEq] at hq'
+      subst hq'
+      obtain ⟨rest', hl2⟩ : ∃ rest', st.unplaced.content = fst :: rest' := by
+        cases hl : st.unplaced.content with
+        | nil => rw [hl] at hfst; simp at hfst
+        | cons a l => rw [hl] at hfst; simp at hfst; subst hfst; exact ⟨l, rfl⟩
+      have hm0 := hq0cons w0 rest (by rw [hwn]; rfl)
+      have hnm := hw.2 it.ty q (S.tyOf fst) w0 rest q0 (inv.tys fst (by rw [hl2]; simp)) hfw hm0
+      have hq1' : q1 = q0 := by
+        rw [hinj] at hq1
+        simpa [Schema.types, Dfa.run] using hq1.symm
+      rw [hl2, hinj, hq1', hitty, takeLoop_nomatch S _ _ _ _ _ fst rest' 0 q0 _ hnm] at htk
+      have := pure_ok htk
+      rw [← this]
+      exact ⟨rfl, rfl⟩
+  -- adding what was taken
+  have hadd : ∃ p, addToFragment c2.2 f.frontierDepth (fromArray tk.2.2) = .ok p ∧
+      rspineOK (c2.1.length - 1) p ∧ fsize c2.2 ≤ fsize p ∧
+      (∀ w0 rest, f.wrap.getD [] = w0 :: rest → p = c2.2) := by
+    cases hws : f.wrap.getD [] with
+    | nil =>
+      have hl : c2.1.length - 1 = f.frontierDepth := by rw [hc2len, hws]; simp
+      rw [hl] at hc2s ⊢
+      obtain ⟨p, hp, hps, _⟩ := addToFragment_ok f.frontierDepth c2.2 (fromArray tk.2.2) hc2s
+      have := addToFragment_size _ _ _ _ hp
+      exact ⟨p, hp, hps, by omega, fun _ _ h => by simp at h⟩
+    | cons w0 rest =>
+      rw [(hwrap_nothing w0 rest hws).1]
+      have hsp' : rspineOK f.frontierDepth c2.2 := rspineOK_le _ _ _ (by omega) hc2s
+      exact ⟨c2.2, addToFragment_nil _ _ hsp', hc2s, Nat.le_refl _, fun _ _ _ => rfl⟩
+  obtain ⟨p, hp, hps, hpsz, hpw⟩ := hadd
+  have hvfin : VInv S D (min g f.frontierDepth) (c2.1.set f.frontierDepth ⟨item.ty, some tk.2.1⟩) p := by
+    cases hws : f.wrap.getD [] with
+    | cons w0 rest =>
+      obtain ⟨e1, e2⟩ := hwrap_nothing w0 rest hws
+      rw [hpw w0 rest hws, e2]
+      have : (⟨item.ty, some q0⟩ : FItem) = item := by
+        cases item with
+        | mk ty st => simp only at hitq; rw [hitq]
+      rw [this, set_self_of_getElem? _ _ _ hitem]
+      exact hv2
+    | nil =>
+      obtain ⟨hie, hqe⟩ := hq0nil hws
+      have hc2e : c2 = c1 := by
+        rw [hws] at hc2
+        exact (pure_ok hc2).symm
+      obtain ⟨added, ha1, ha2⟩ := takeLoop_run S _ _ _ _ _ _ _ _ _ tk htk
+      have hrun : (S.dfa item.ty).run q0 (S.types tk.2.2) = some tk.2.1 := by
+        rw [ha1, types_append, Dfa.run_append, hq1]
+        exact ha2
+      have hinjv : S.checkKids (f.inject.getD []) = true ∧ MarksOK S item.ty (f.inject.getD []) := by
+        cases kind with
+        | direct _ _ _ _ _ hinj _ => rw [hinj]; exact ⟨by simp, by intro c hc; simp at hc⟩
+        | empty _ _ _ hinj _ => rw [hinj]; exact ⟨by simp, by intro c hc; simp at hc⟩
+        | wrap _ _ _ _ _ _ hinj _ => rw [hinj]; exact ⟨by simp, by intro c hc; simp at hc⟩
+        | inject fst q' inj hfst hq' hfill hinj hwn =>
+          rw [hinj]
+          simp only [Option.getD_some]
+          have hn := fillOpt_nodes S hdet hleaf _ _ _ _ inj hfill
+          exact ⟨(checkKids_iff S inj).2 (fun n hn' => (hn n hn').1),
+            MarksOK_of_nil S _ inj (fun n hn' => (hn n hn').2)⟩
+      obtain ⟨hvk, hvm⟩ := takeLoop_valid0 S _ _ _ _ _ _ _ _ tk htk hu hinjv.1 hinjv.2
+      have hfr3 : c2.1.set f.frontierDepth ⟨item.ty, some tk.2.1⟩ = pre ++ [⟨item.ty, some tk.2.1⟩] := by
+        rw [hc2e, hc1f'', ← hprelen, hie]
+        exact set_append_last pre it _
+      rw [hfr3]
+      refine addTaken_vinv S hts D _ pre item c2.2 p q0 tk.2.1 tk.2.2 hitq hrun hvk hvm (by rw [hprelen]; omega)
+        (by rw [hprelen]; exact hp) ?_
+      rw [hie, hc2e, ← hc1f'']
+      exact hv1
+  -- the step
+  unfold placeNodes
+  rw [FM.bind_eq hc1, FM.bind_eq hc2]
+  simp only [hfragment, hsd0, Nat.sub_zero]
+  rw [FM.bind_eq (show getItem c2.1 f.frontierDepth = .ok item by unfold getItem; rw [hitem]; rfl)]
+  rw [FM.bind_eq (show getSt item = .ok q0 by unfold getSt; rw [hitq]; rfl)]
+  rw [FM.bind_eq (show liftRaise ((S.dfa item.ty).run q0 (S.types (f.inject.getD []))) = .ok q1 by rw [hq1]; rfl)]
+  have htk' : takeLoop S (S.dfa item.ty) item.ty st.unplaced.openStart
+      ((fsize st.unplaced.content : Int) + (0 : Nat) - ((fsize st.unplaced.content : Int) - st.unplaced.openEnd))
+      st.unplaced.content.length st.unplaced.content 0 q1 (f.inject.getD []) = .ok tk := by
+    rw [inv.os0]
+    have : f.oec0 st.unplaced = (fsize st.unplaced.content : Int) + (0 : Nat) -
+        ((fsize st.unplaced.content : Int) - st.unplaced.openEnd) := by
+      unfold Fittable.oec0; rw [hfragment, hsd0]
+    rw [← this]; exact htk
+  rw [FM.bind_eq htk', FM.bind_eq hp]
+  have hset_len : (c2.1.set f.frontierDepth ⟨item.ty, some tk.2.1⟩).length = c2.1.length := List.length_set
+  have hlast_lt : (c2.1.set f.frontierDepth ⟨item.ty, some tk.2.1⟩).length - 1 <
+      (c2.1.set f.frontierDepth ⟨item.ty, some tk.2.1⟩).length := by
+    rw [hset_len]; omega
+  rw [FM.bind_eq (getItem_lt hlast_lt)]
+  simp only [hpar, Bool.and_false, Bool.false_and, Bool.false_eq_true, if_false, hset_len]
+  have hoec : ((if (tk.1 == st.unplaced.content.length) = true then
+      (fsize st.unplaced.content : Int) + (0 : Nat) - ((fsize st.unplaced.content : Int) - st.unplaced.openEnd)
+      else -1) : Int).toNat = 0 := by
+    rw [inv.oe0]
+    split
+    · simp
+    · rfl
+  rw [FM.bind_eq (show (pure (c2.1.set f.frontierDepth ⟨item.ty, some tk.2.1⟩, p) : FM _) = .ok _ from rfl)]
+  simp only [hoec, pushOpenEnd]
+  rw [FM.bind_eq (show (pure (c2.1.set f.frontierDepth ⟨item.ty, some tk.2.1⟩) : FM _) = .ok _ from rfl)]
+  -- the new unplaced slice
+  have hrest : ∃ u', placeRest st.unplaced 0 tk.1 (tk.1 == st.unplaced.content.length)
+      (if (tk.1 == st.unplaced.content.length) = true then
+        (fsize st.unplaced.content : Int) + (0 : Nat) - ((fsize st.unplaced.content : Int) - st.unplaced.openEnd)
+       else -1) = .ok u' ∧ (∀ n ∈ u'.content, n ∈ st.unplaced.content) ∧ u'.openStart = 0 ∧ u'.openEnd = 0 := by
+    unfold placeRest
+    cases (tk.1 == st.unplaced.content.length) with
+    | false =>
+      simp only [Bool.not_false, if_true, dropFromFragment]
+      exact ⟨_, rfl, fun n hn => List.mem_of_mem_drop hn, inv.os0, inv.oe0⟩
+    | true =>
+      simp only [Bool.not_true, Bool.false_eq_true, if_false, beq_self_eq_true, if_true]
+      exact ⟨Slice.empty, rfl, fun n hn => by simp [Slice.empty] at hn, rfl, rfl⟩
+  obtain ⟨u', hu', hu1, hu2, hu3⟩ := hrest
+  rw [FM.bind_eq hu']
+  refine ⟨_, rfl, ?_, hvfin, hu1⟩
+  refine ⟨FrOK_set hc2ok _ _ ⟨_, rfl⟩, ?_, ?_, fun n hn => inv.leaf n (hu1 n hn), fun n hn => inv.tys n (hu1 n hn),
+    hu2, hu3, ?_⟩
+  · intro h0
+    have : (c2.1.set f.frontierDepth ⟨item.ty, some tk.2.1⟩).length = 0 := by simp only at h0; rw [h0]; rfl
+    rw [hset_len] at this; omega
+  · simp only [hset_len]; exact hps
+  · simp only [hset_len]
+    have := inv.sz
+    omega
+
 end PM
